@@ -127,6 +127,10 @@ class Check:
 
     # ---- finish ------------------------------------------------------------------------
     def finish(self, rule: str, level="model_checking") -> int:
+        global EVID
+        if not self.prop.startswith("C"):
+            # extended-coverage runs (X..) are not registered checks: their record stays out of evidence/
+            EVID = os.path.join(ROOT, "out", "extra_evidence")
         os.makedirs(EVID, exist_ok=True)
         cov = {
             "states": int(self.states),
